@@ -54,7 +54,7 @@ type Plan struct {
 
 var (
 	dTyps = []string{"TA", "TB"}
-	dIDs  = []string{"a", "b", "c"}
+	dIDs  = []string{"a", "b", "c", ""} // the empty string is a legal resource id
 	sels  = [][]state.ListOption{
 		nil,
 		{state.WithLabelQuery(resource.LabelExists("k1"))},
@@ -97,7 +97,7 @@ func GenDiff(t *rapid.T) Plan {
 		return Op{
 			K: rapid.SampledFrom([]string{"create", "create", "update", "update", "destroy", "get", "list", "list", "uwc", "modify", "modify",
 				"teardown", "teardown", "tad", "addfin", "remfin", "watch", "watch"}).Draw(t, "k"),
-			ID:    rapid.SampledFrom([]int{0, 0, 1, 2}).Draw(t, "id"),
+			ID:    rapid.SampledFrom([]int{0, 0, 0, 1, 1, 2, 2, 3}).Draw(t, "id"),
 			Typ:   rapid.SampledFrom([]int{0, 0, 0, 1}).Draw(t, "typ"),
 			Owner: rapid.SampledFrom([]int{3, 3, 3, 0, 1, 2}).Draw(t, "owner"),
 			Phase: rapid.SampledFrom([]int{0, 0, 1, 2, 3}).Draw(t, "phase"),
